@@ -42,7 +42,7 @@ class MultiVector:
         if items:
             canon_items = {}
             for key, value in items.items():
-                target, swaps = algebra._blade2canon(key)
+                target, swaps = algebra._blade2canon(key) if re.match(r'^e[0-9a-fA-F]*$', key) else (None, 0)
                 if target not in algebra.canon2bin:
                     raise ValueError(f'{key} is not a basis blade of this algebra.')
                 value = - value if swaps % 2 else value
